@@ -54,4 +54,3 @@ package orbiter
 //@   modifies mapof(in.Orbiters.executor.router.routes), route_id, in.Orbiters.executor.router, in.Orbiters.executor.router.sealed
 //@   loop 0 unroll 2
 //@   ensures[C05] mapHas(actRoutes(in), core.ACTION_FEE) && isFeeCtl(mapGet(actRoutes(in), core.ACTION_FEE))
-
